@@ -13,12 +13,12 @@ from .hmodel import Model, ModelError
 HPROFILES = {
     # weights of op kinds after the initial construction phase
     'C15': {'requires': 5, 'requires_remove': 2, 'cycles': 6, 'job': 2,
-            'sched': 1, 'add': 1, 'sanitize': 1, 'back_edge': 4},
+            'sched': 2, 'add': 1, 'sanitize': 1, 'back_edge': 4},
     'C16': {'requires': 4, 'dangling': 5, 'sanitize': 5, 'job': 2, 'sched': 2,
             'add': 1, 'remove': 1, 'seq': 1},
-    'C17': {'requires': 4, 'requires_remove': 2, 'query': 7, 'job': 2,
-            'sched': 1, 'add': 1, 'remove': 1, 'bypass': 1, 'seq': 1,
-            'keep_only': 1},
+    'C17': {'requires': 4, 'requires_remove': 2, 'query': 8, 'job': 2,
+            'sched': 2, 'add': 1, 'remove': 2, 'bypass': 1, 'seq': 1,
+            'keep_only': 1, 'dangling': 2},
     'C18': {'requires': 3, 'bypass': 5, 'keep_only': 3, 'keep_between': 4,
             'job': 2, 'seq': 1, 'query': 1, 'sched': 1},
     # histories that end with run(): queries, edits and surgery first
@@ -26,6 +26,10 @@ HPROFILES = {
             'sched': 1, 'add': 2, 'update': 1, 'remove': 3, 'bypass': 3,
             'keep_only': 1, 'keep_between': 1, 'sanitize': 3, 'seq': 2,
             'append': 1, 'cycles': 2},
+    'C03': {'requires': 5, 'requires_remove': 1, 'query': 5, 'job': 3,
+            'sched': 1, 'add': 2, 'update': 1, 'remove': 2, 'bypass': 2,
+            'keep_only': 1, 'sanitize': 2, 'seq': 2, 'append': 1,
+            'cycles': 2},
     'C02': {'requires': 4, 'requires_remove': 1, 'query': 4, 'job': 3,
             'sched': 1, 'add': 2, 'update': 1, 'remove': 3, 'bypass': 3,
             'keep_only': 1, 'keep_between': 1, 'sanitize': 3, 'seq': 2,
@@ -182,8 +186,9 @@ class HGen:
         arg = self.arg_of(names)
         if self.rng.random() < 0.15:
             # name a requirement through a sequence (stands for its last job)
-            seqs = [q for q in self.seqs() if self.m.seq[q]
-                    and self.m.seq[q][-1] != later]
+            # (also a sequence that ends with the job itself: the documented
+            # self-requirement guard must hold on that path too)
+            seqs = [q for q in self.seqs() if self.m.seq[q]]
             if seqs:
                 arg = {"t": self.rng.choice(("list", "tuple")),
                        "items": [arg, self.ref(self.rng.choice(seqs))]}
@@ -429,7 +434,8 @@ class HGen:
             others = [j for j in self.jobs() if j not in mem]
             if others:
                 remains.append(self.rng.choice(others))
-        self.emit({"op": "keep_only", "sched": sched, "remains": remains})
+        self.emit({"op": "keep_only", "sched": sched, "remains": remains,
+                   "as_iter": self.rng.random() < 0.3})
         self.m.keep_only(sched, remains)
         for j in mem:
             if j not in self.m.members[sched]:
@@ -445,7 +451,8 @@ class HGen:
         ends = rng.sample(mem, rng.choice((0, 1, 1, 2, 3)) % (len(mem) + 1))
         op = {"op": "keep_between", "sched": sched, "starts": starts,
               "ends": ends, "keep_starts": rng.random() < 0.6,
-              "keep_ends": rng.random() < 0.6}
+              "keep_ends": rng.random() < 0.6,
+              "as_iter": rng.random() < 0.3}
         self.emit(op)
         self.m.keep_only_between(sched, starts, ends, op["keep_starts"],
                                  op["keep_ends"])
@@ -488,7 +495,7 @@ class HGen:
         for _ in range(rng.choice((4, 6, 8, 10, 14, 20))):
             table[rng.choices(kinds, weights)[0]]()
         if (self.prop == 'C19' and rng.random() < 0.5) or \
-                self.prop in ('C01', 'C02'):
+                self.prop in ('C01', 'C02', 'C03'):
             if self.prop != 'C19' and rng.random() < 0.7:
                 # make the tree runnable: drop dangling requirements
                 self.emit({"op": "sanitize", "sched": top, "twice": False})
